@@ -368,11 +368,38 @@ def gen_spec(rng, tier, maxlen):
         spec["transform"] = [rng.choice([1, 2, 3]), 0, 0, 0, -rng.choice([1, 2, 4]), rng.choice([0, 30])]
     o = Obj(cls, ds, tuple(shape), np.dtype(spec["dtype"]).type, spec["cache"], Affine(*spec["transform"]), False)
     ops = []
+    if has_loops(ds):
+        # traces on networks with loops are outside the documented domain (they need not end): only
+        # loop-safe queries may precede the repair
+        for _ in range(rng.randint(0, 3)):
+            ops.append((rng.choice(["rank", "isvalid", "nnodes", "idxs_pit", "n_upstream", "idxs_seq"]), {}))
+        ops.append(("repair_loops", {}))
     for _ in range(rng.randint(2, maxlen)):
         name, a, kind = gen_op(rng, o, n, valid)
         ops.append((name, a))
     spec["ops"] = ops
     return spec
+
+
+def has_loops(ds):
+    n = len(ds)
+    for i in range(n):
+        if ds[i] == n:
+            continue
+        j, k = i, 0
+        while ds[j] != j and k <= n:
+            j, k = ds[j], k + 1
+        if k > n:
+            return True
+    return False
+
+
+class HistoryTimeout(BaseException):
+    pass
+
+
+def _alarm(*_):
+    raise HistoryTimeout()
 
 
 def run(ctx):
@@ -414,13 +441,22 @@ def run(ctx):
             ctx.nontrivial.add(hashlib.sha1(json.dumps(spec, sort_keys=True, default=str).encode()).hexdigest())
         if len(ctx.samples) < 3:
             ctx.samples.append(spec)
+        import signal
+        signal.signal(signal.SIGALRM, _alarm)
+        signal.alarm(60)
         try:
             fail = run_history(spec, table)
+        except HistoryTimeout:
+            fail = {"what": "a call of the history did not return within 60 s (termination)", "kind": "spec"}
+            ctx.failures.append({"desc": spec, "kind": "spec", "what": fail["what"]})
+            continue
         except ValueError as e:
             if "no pits found" in str(e) or "size" in str(e):
                 ctx.count("ctor-rejected")
                 continue
             raise
+        finally:
+            signal.alarm(0)
         ctx.impl_validated += 1
         if fail is not None:
             small = shrink(spec, table)
